@@ -796,6 +796,14 @@ func (r *yieldRewriter) rewriteBreakContinues(body *ast.BlockStmt) {
 		funcLitStack = mkStack[*ast.FuncLit](nil)
 		enterFuncLit = funcLitStack.push
 		exitFuncLit  = funcLitStack.pop
+		inUserLit    = func() bool {
+			for _, lit := range *funcLitStack {
+				if lit != nil && !r.generated[lit] {
+					return true
+				}
+			}
+			return false
+		}
 
 		doRewrite = func(n *ast.BranchStmt) (_ ast.Node) {
 			switch n.Tok {
@@ -812,6 +820,9 @@ func (r *yieldRewriter) rewriteBreakContinues(body *ast.BlockStmt) {
 				r.assert(n.Label == nil, n, "continue with label not supported")
 				return X.Return(r.CallContinue())
 			case token.GOTO:
+				if inUserLit() {
+					return // a goto inside a plain closure stays inside it
+				}
 				r.assert(false, n, "goto not supported")
 			case token.FALLTHROUGH:
 				if inSwitch() {
